@@ -9,6 +9,11 @@ file, and 4-10 operations check / read(n) / seek / write(data) on either handle.
 may be given relative to the handle's own past: ("end", k, d) = where the k-th most recent request on that
 handle (read, write or check range) ended, plus d; ("pos", d) = the handle's current read/write position.
 The served files are unbuffered on the server side (a second handle must see what the first one wrote).
+Short-read plan (sftpenv fault plan, ("short", k)): SFTPHandle.read is documented as "read up to length bytes", so while a
+check-file request is served the handle may legitimately hand out FEWER bytes than asked although more data follows
+(pipe / socket / object-store backed files, a read-size cap): none | a cap of k bytes per read | every m-th read (by a hash
+of offset and length) short by a random or a tiny amount.  A short read always returns >= 1 byte, an empty read still
+means end of file.  The oracle does not change: the digests are hashlib over the real bytes.
 
 Oracle (hashlib over the very bytes the served file holds at the moment of the query: the harness keeps a
 model of the file - initial bytes, emptied by a w+ open, patched by every write it issues; SFTPFile.write on an
@@ -34,6 +39,7 @@ import shutil
 import sys
 import time
 import traceback
+import zlib
 
 from hypothesis import strategies as st
 
@@ -46,13 +52,16 @@ RULE = (
     "with aperiodic content; program = 1-4 check-file queries on one read-only handle, or (half of the cases) a handle history of 4-10 "
     "operations check/read(n)/seek/write(1..65536 bytes) on a handle opened r, r+ or w+ (unbuffered) and on a second handle on the same file, "
     "offsets also relative to the handle's past (end position of its k-th last request +-d, current position) and to the current size; "
+    "short-read plan for the served handle while a check-file request is served (none | at most k bytes per read, k in 256..65535 | every "
+    "m-th read, by hash of (offset, length), returns a random or a tiny part of what is available - never 0 bytes before EOF); "
     "queries via SFTPFile.check: algorithm in {md5, sha1, lists with both orders and an "
     "unsupported name}, offset/length from {0,1,255,256,257,65535,65536,65537,131072,size-1,size,size+1, random, 2^40}, block size >= 256 from "
     "{256,257,512,4096,65535,65536,65537,131072,size,size+1,random}; oracle = hashlib per block over the bytes the file holds at that moment "
     "(model = initial bytes + the writes issued; checked against the disk at the end), range clipped at EOF when "
     "length is 0 or runs past it; promptness = server read-count/livelock guard. non-trivial = some block of the range is longer than 65536 bytes "
     "(spans the server's read chunk) or the requested length runs past EOF or there are >= 2 blocks with a partial last one, or a non-empty range is "
-    "hashed on a handle that has already served a read/write or after the file was modified; distinct by SHA-1 of the case"
+    "hashed on a handle that has already served a read/write or after the file was modified, or the served handle returned a short read "
+    "before EOF while a non-empty range was hashed; distinct by SHA-1 of the case"
 )
 THOROUGH_WORKERS = 16
 
@@ -134,11 +143,25 @@ _hop = st.one_of(
         + _w(st.tuples(st.just("write"), _h, _nwrite, st.integers(0, 255)), 2)
     )
 )
+# short-read plan of the served handle (applies while a check-file request is served): None | ("cap", k) | ("hash", m, salt, tiny)
+_short_plan = st.one_of(
+    st.tuples(st.just("cap"), st.sampled_from([256, 1000, 4096, 20000, 32768, 65535])),
+    st.tuples(st.just("cap"), st.integers(256, 65535)),
+    st.tuples(st.just("hash"), st.sampled_from([1, 1, 2, 3, 5]), st.integers(0, 1000), st.just(False)),
+    st.tuples(st.just("hash"), st.sampled_from([3, 5, 10]), st.integers(0, 1000), st.just(True)),
+)
+_short = st.one_of(*([st.none()] + _w(st.none(), 2) + _w(_short_plan, 2)))
 _plain_case = st.fixed_dictionaries(
-    {"size": _file_sizes, "seed": st.integers(0, 255), "mode": st.just("r"), "ops": st.lists(_query.map(lambda q: ("check", 0) + tuple(q)), min_size=1, max_size=4)}
+    {"size": _file_sizes, "seed": st.integers(0, 255), "mode": st.just("r"), "short": _short, "ops": st.lists(_query.map(lambda q: ("check", 0) + tuple(q)), min_size=1, max_size=4)}
 )
 _history_case = st.fixed_dictionaries(
-    {"size": _file_sizes, "seed": st.integers(0, 255), "mode": st.sampled_from(["r", "r+", "r+", "r+", "r+", "w+"]), "ops": st.lists(_hop, min_size=4, max_size=10)}
+    {
+        "size": _file_sizes,
+        "seed": st.integers(0, 255),
+        "mode": st.sampled_from(["r", "r+", "r+", "r+", "r+", "w+"]),
+        "short": _short,
+        "ops": st.lists(_hop, min_size=4, max_size=10),
+    }
 )
 case_st = st.one_of(*(_w(_plain_case, 1) + _w(_history_case, 2)))
 
@@ -178,16 +201,42 @@ def _blocks(size, o, l, b):
 
 
 class ReadGuard:
-    def __init__(self, size):
+    """Read accounting + livelock guard + the case's short-read plan (active while a check-file request is served)."""
+
+    def __init__(self, size, short=None):
         self.size = size
         self.kill = False
+        self.short = short
+        self.n_short = 0  # short reads (before EOF) handed out since begin()
+        self.last_short = 0  # ... while the most recent check-file request was served
         self.begin(0)
 
-    def begin(self, span):
+    def begin(self, span, checking=False):
         self.reads = 0
         self.eof_run = 0
         self.limit = 20000 + 64 * (span // 256 + 1)
         self.aborted = None
+        self.checking = checking
+        self.n_short = 0
+
+    def _short(self, offset, length):
+        sp = self.short
+        avail = min(length, self.size - offset)
+        if sp is None or not self.checking or avail <= 1:
+            return None
+        if sp[0] == "cap":
+            k = sp[1]
+            if k >= avail:
+                return None
+        else:
+            _, m, salt, tiny = sp
+            h = zlib.crc32(b"%d:%d:%d" % (offset, length, salt))
+            if h % m:
+                return None
+            h2 = h // m
+            k = 1 + h2 % (min(64, avail - 1) if tiny else (avail - 1))
+        self.n_short += 1
+        return ("short", k)
 
     def on_read(self, handle, n, offset, length):
         self.reads += 1
@@ -206,12 +255,29 @@ class ReadGuard:
             if self.aborted is None:
                 self.aborted = why
             raise sftpenv.HarnessAbortLoop(why)
-        return None
+        return self._short(offset, length)
 
 
 # ----------------------------------------------------------------------------- execution
 
 _counter = [0]
+_scratch_dir = [None]
+
+
+def scratch(ctx):
+    """Directory for the served files: tmpfs when available (every case writes and removes a file of up to 400 KiB), else
+    ctx.tmpdir().  Removed at interpreter exit."""
+    if _scratch_dir[0] is None or not os.path.isdir(_scratch_dir[0]):
+        import atexit
+        import tempfile
+
+        shm = "/dev/shm"
+        if os.path.isdir(shm) and os.access(shm, os.W_OK):
+            _scratch_dir[0] = tempfile.mkdtemp(prefix="verif-C32-", dir=shm)
+            atexit.register(shutil.rmtree, _scratch_dir[0], True)
+        else:
+            _scratch_dir[0] = ctx.tmpdir()
+    return _scratch_dir[0]
 
 
 def _server_stack(env):
@@ -233,7 +299,7 @@ def _one_query(ctx, jcase, env, guard, fh, content, q, qi, hsuffix="", hwhere=""
     algs, o, l, b = q
     blocks = _blocks(size, o, l, b)
     span = (blocks[-1][1] - o) if blocks else 0
-    guard.begin(span)
+    guard.begin(span, checking=True)
     exc = got = None
     t0 = time.time()
     try:
@@ -241,6 +307,11 @@ def _one_query(ctx, jcase, env, guard, fh, content, q, qi, hsuffix="", hwhere=""
     except (IOError, OSError, SSHException, EOFError) as e:
         exc = e
     elapsed = time.time() - t0
+    n_short = guard.last_short = guard.n_short
+    guard.checking = False
+    if n_short:
+        hsuffix += ":short-reads"
+        hwhere += " [served handle returned %d short reads before EOF, plan %r]" % (n_short, guard.short)
     where = "query %d: check(%r, offset=%d, length=%d, block_size=%d) on a %d-byte file%s" % (qi, algs, o, l, b, size, hwhere)
     past_eof = l > 0 and o + l > size
     # ---- no prompt answer
@@ -357,6 +428,9 @@ def execute(ctx, case, _retry=0):
         mode = case["mode"]
         ops = _jsonable(case["ops"])
         jcase = {"size": size, "seed": seed, "mode": mode, "ops": ops}
+    short = _jsonable(case.get("short"))
+    if short is not None:  # (cases of earlier generations of this check carry no plan)
+        jcase["short"] = short
 
     model = bytearray(_content(seed, size))
     nontrivial = False
@@ -364,13 +438,14 @@ def execute(ctx, case, _retry=0):
     classes.add("mode:" + mode)
 
     _counter[0] += 1
-    base = os.path.join(ctx.tmpdir(), "c%d" % _counter[0])
+    base = os.path.join(scratch(ctx), "c%d" % _counter[0])
     root = os.path.join(base, "root")
     os.makedirs(root)
     fpath = os.path.join(root, "f")
     with open(fpath, "wb") as f:
         f.write(model)
-    guard = ReadGuard(size)
+    guard = ReadGuard(size, short)
+    classes.add("short-plan:" + ("none" if short is None else short[0] + (":tiny" if short[0] == "hash" and short[3] else "")))
     # unbuffered server-side files: a handle must see what was written through another handle
     env = sftpenv.SftpEnv(root, fault_plan=guard, loop_limit=10**12, handle_buffering=0)
     late = None
@@ -481,6 +556,9 @@ def execute(ctx, case, _retry=0):
             qi += 1
             if blocks:
                 hs.hist.append(("check", blocks[-1][1]))
+            if guard.last_short and blocks:
+                classes.add("check:short-server-reads-before-eof")
+                nontrivial = True
             if r == "late":
                 late = (qi - 1, (algs, o, l, b), _server_stack(env))
                 break
